@@ -37,7 +37,7 @@ class AccessMixin:
 
     def attr_error(self, obj, name, node, frame):
         rt = self.real_type_of(obj)
-        if rt is not None and hasattr(rt, name) and not name.startswith("__"):
+        if rt is not None and hasattr(rt, name):
             # python has this attribute; the model does not: that is this analysis's gap, never the library's error
             raise AnalysisError("unmodelled-builtin", "%s.%s used at %s" % (rt.__name__, name, frame.where(node)))
         self.event("attr-error", obj=obj, name=name, where=frame.where(node), node=node)
@@ -70,7 +70,7 @@ class AccessMixin:
             if name == "__doc__":
                 return self.get_attr(obj.fget, "__doc__", node, frame) if obj.fget is not None else None
             raise AnalysisError("unmodelled-builtin", "property.%s used at %s" % (name, frame.where(node)))
-        if isinstance(obj, (NTuple, IntEnumMember, EnumMember, PartialVal)) or (isinstance(obj, ClassVal) and name.startswith("_")):
+        if isinstance(obj, (NTuple, IntEnumMember, EnumMember, PartialVal, ChainMapVal)) or (isinstance(obj, ClassVal) and name.startswith("_")):
             from .stdlib_model import _NO
             r = self.stdlib_attr(obj, name, node, frame)
             if r is not _NO:
@@ -87,12 +87,20 @@ class AccessMixin:
             sub = self.modules.get(obj.name + "." + name)
             if sub is not None and not sub.external:
                 return sub
+            if isinstance(obj.env.get("__getattr__"), FuncVal) and not obj.external:
+                return self.call_function(obj.env["__getattr__"], [name], {}, node, frame)        # PEP 562
             return self.attr_error(obj, name, node, frame)
         if isinstance(obj, ClassVal):
             return self.class_attr(obj, name, node, frame)
         if isinstance(obj, Instance):
+            dv = self.descriptor_of(obj.cls, name) if isinstance(obj.cls, ClassVal) else None
+            if dv is not None and dv[1]:
+                # a data descriptor on the class (it defines __set__ / __delete__) wins over the instance's own attribute
+                return self.call_function(dv[0], [dv[2], obj, obj.cls], {}, node, frame)
             if name in obj.attrs:
                 return obj.attrs[name]
+            if dv is not None:
+                return self.call_function(dv[0], [dv[2], obj, obj.cls], {}, node, frame)
             if name == "__class__":
                 return obj.cls
             if name == "args" and any(c.builtin for c in obj.cls.mro()):
@@ -122,6 +130,9 @@ class AccessMixin:
                 mv, mowner = obj.cls.lookup(name)
                 if isinstance(mv, PropertyVal) and mv.fget is not None:
                     return self.call_function(mv.fget, [obj], {}, node, frame)
+                dv = self.descriptor_of(obj.cls, name)
+                if dv is not None and dv[1]:
+                    return self.call_function(dv[0], [dv[2], obj, obj.cls], {}, node, frame)
             if name in obj.members:
                 return obj.members[name]
             if obj.cls is not None:
@@ -130,6 +141,9 @@ class AccessMixin:
                     return self.call_function(v.fget, [obj], {}, node, frame)
                 if isinstance(v, FuncVal):
                     return BoundMethod(v, obj)
+                dv = self.descriptor_of(obj.cls, name)
+                if dv is not None:
+                    return self.call_function(dv[0], [dv[2], obj, obj.cls], {}, node, frame)
             if name == "__name__":
                 return getattr(obj, "type_name", None) or "Enum"
             if name in TYPE_ATTRIBUTES:
@@ -215,6 +229,20 @@ class AccessMixin:
         m = self.method_of(obj, name, node, frame)
         if m is not None:
             return m
+        rt = self.real_type_of(obj)
+        if rt is not None and hasattr(rt, name) and name in ("__getitem__", "__setitem__", "__len__", "__contains__", "__iter__", "__delitem__"):
+            # the special methods of the built-in containers, called by name: what the corresponding syntax does
+            I = self
+            if name == "__getitem__":
+                return Builtin(name, lambda a, k, n, f: I.get_item(obj, a[0], n, f))
+            if name == "__setitem__":
+                return Builtin(name, lambda a, k, n, f: I.set_item(obj, a[0], a[1], n, f))
+            if name == "__len__":
+                return Builtin(name, lambda a, k, n, f: I.len_of(obj, n, f))
+            if name == "__contains__":
+                return Builtin(name, lambda a, k, n, f: I.contains(obj, a[0], n, f))
+            if name == "__iter__":
+                return Builtin(name, lambda a, k, n, f: I.bi_iter([obj], {}, n, f))
         return self.attr_error(obj, name, node, frame)
 
     def super_attr(self, sp, name, node, frame):
@@ -285,8 +313,27 @@ class AccessMixin:
         m = cls.mro()
         return m if any(c.builtin and c.name == "object" for c in m) else m + [self.bclasses["object"]]
 
-    def class_attr(self, cls, name, node, frame):
+    def descriptor_of(self, cls, name):
+        """(its __get__, is-a-data-descriptor, the descriptor object) when the class attribute `name` is an object whose
+        class defines __get__ -- python's descriptor protocol for objects other than functions and properties"""
         v, owner = cls.lookup(name)
+        if owner is None or not isinstance(v, Instance) or not isinstance(v.cls, ClassVal):
+            return None
+        g, gowner = v.cls.lookup("__get__")
+        if not isinstance(g, FuncVal):
+            return None
+        data = isinstance(v.cls.lookup("__set__")[0], FuncVal) or isinstance(v.cls.lookup("__delete__")[0], FuncVal)
+        return g, data, v
+
+    def class_attr(self, cls, name, node, frame):
+        dv = self.descriptor_of(cls, name)
+        if dv is not None and not getattr(self, "_raw_class_attr", False):
+            return self.call_function(dv[0], [dv[2], None, cls], {}, node, frame)        # Class.attr: __get__(None, Class)
+        v, owner = cls.lookup(name)
+        if owner is None and name == "__subclasses__":
+            # the classes written (so far) directly below this one, in the order they were created
+            subs = [c for c in getattr(self, "all_classes", []) if cls in c.bases]
+            return Builtin("%s.__subclasses__" % cls.name, lambda a, k, n, f: list(subs))
         if owner is None:
             if name == "__name__":
                 return cls.name
@@ -314,6 +361,11 @@ class AccessMixin:
                                      metaclass=a[0] if isinstance(a[0], ClassVal) else None)
                         c.attrs = dict(a[3])
                         c.made_by_type_new = True
+                        for key_, val_ in list(c.attrs.items()):
+                            if isinstance(val_, Instance) and isinstance(val_.cls, ClassVal):
+                                sn, snowner = val_.cls.lookup("__set_name__")
+                                if isinstance(sn, FuncVal):
+                                    I0.call_function(sn, [val_, c, key_], {}, n, f)
                         return c
                     raise AnalysisError("unmodelled-builtin", "type.__new__ with these arguments at %s" % f.where(n))
                 return Builtin("type.__new__", explicit_type_new)
@@ -369,6 +421,15 @@ class AccessMixin:
         return v
 
     def set_attr(self, obj, name, v, node, frame):
+        if isinstance(obj, Instance) and isinstance(obj.cls, ClassVal):
+            dobj, downer = obj.cls.lookup(name)
+            if isinstance(dobj, Instance) and isinstance(dobj.cls, ClassVal) and not getattr(self, "_object_setattr", False):
+                sf, sowner = dobj.cls.lookup("__set__")
+                if isinstance(sf, FuncVal):
+                    self.call_function(sf, [dobj, obj, v], {}, node, frame)
+                    return
+                if isinstance(dobj.cls.lookup("__delete__")[0], FuncVal):
+                    raise PyRaise(Instance(self.bclasses["AttributeError"], ("__set__",)), node, frame.where(node))
         if isinstance(obj, Instance):
             pv, owner = obj.cls.lookup(name)
             if isinstance(pv, PropertyVal):
@@ -386,6 +447,12 @@ class AccessMixin:
             obj.attrs[name] = v
             return
         if isinstance(obj, ClassVal):
+            if name == "__name__" and isinstance(v, str):
+                obj.name = v                  # a class renamed after its creation answers to the new name
+                return
+            if name in ("__qualname__", "__doc__", "__module__"):
+                obj.attrs[name] = v
+                return
             if not self.loading or self.exploring:
                 self.journal.append(("attr", obj.attrs, name, obj.attrs.get(name, _ABSENT)))
                 self.event("class-store", cls=obj.qualname, name=name, value=v, where=frame.where(node), node=node)
@@ -464,6 +531,11 @@ class AccessMixin:
 
     def get_item(self, obj, key, node, frame):
         key = norm_int(key) if not isinstance(key, slice) else key
+        if isinstance(obj, ChainMapVal):
+            for m in obj.maps:
+                if self.contains(m, key, node, frame):
+                    return self.get_item(m, key, node, frame)
+            return self.key_error(key, node, frame, obj.maps[0])
         if isinstance(obj, ClassVal) and self.enum_class_of(obj) is not None:
             if isinstance(key, str):
                 members = self.enum_class_of(obj).enum_members
@@ -498,6 +570,10 @@ class AccessMixin:
                 return Unknown("unhashable key")
             if "**" in obj and isinstance(obj["**"], (SymDict, SymAny)):
                 return self.get_item(obj["**"], key, node, frame)
+            if isinstance(obj, DefaultDictVal) and obj.factory is not None:
+                v = self.call(obj.factory, [], {}, node, frame)       # a missing key is made on the spot
+                self.set_item(obj, key, v, node, frame)
+                return v
             return self.key_error(key, node, frame, obj)
         if isinstance(obj, SymDict):
             if isinstance(key, (str, int)) and not isinstance(key, Sym):
@@ -720,6 +796,8 @@ class AccessMixin:
 
     def set_item(self, obj, key, v, node, frame):
         key = norm_int(key) if not isinstance(key, slice) else key
+        if isinstance(obj, ChainMapVal):
+            obj = obj.maps[0]                 # writes go to the first mapping
         if isinstance(obj, dict):
             if id(obj) in self.static_ids and (not self.loading or self.exploring):
                 self.journal.append(("dict", obj, None, dict(obj)))
